@@ -19,6 +19,8 @@ def rect_reference(src, shape, buffer=BUFFER):
     `edge` flags points in the last row / last column / first row / first column of cells."""
     src = np.asarray(src, dtype=float)
     ny, nx = int(shape[0]), int(shape[1])
+    # documented rule of overlay_grid: the buffer never drops below 64 eps of the largest |coordinate|
+    buffer = max(buffer, 64.0 * EPS * float(np.abs(src).max()))
     y_min = src[:, 0].min() - buffer
     y_max = src[:, 0].max() + buffer
     x_min = src[:, 1].min() - buffer
@@ -36,7 +38,7 @@ def rect_reference(src, shape, buffer=BUFFER):
     centres = np.stack([np.repeat(yc, nx), np.tile(xc, ny)], axis=1)
     return {
         "pix": row * nx + col, "row": row, "col": col, "bdist": np.minimum(by, bx), "centres": centres,
-        "dy": dy, "dx": dx,
+        "dy": dy, "dx": dx, "buffer": buffer,
         "far_edge": (row == ny - 1) | (col == nx - 1), "near_edge": (row == 0) | (col == 0),
     }
 
@@ -77,7 +79,7 @@ def delaunay_reference(src, verts):
       simplex_margin  (N,) best smallest barycentric coordinate over all simplices
       nearest_gap     (N,) relative gap between the squared distances to the two nearest vertices
       shape_quality   (N,) 2*area / (longest edge)^2 of the containing simplex (1 for outside points)
-      hull_tie        (N,) the point is within rounding (1e-9 + 64 eps / quality) of a hull edge
+      hull_tie        (N,) the point is within float resolution 256 eps (1 + 1/quality + max|coord|/height) of a hull edge
       kappa           (N,) conditioning max(|coord|^2, longest edge^2) / (2 area) of the worst simplex that contains
                       the point to rounding
       general_margin  smallest normalised in-circle determinant over pairs of adjacent simplices
@@ -108,8 +110,11 @@ def delaunay_reference(src, verts):
     edges = np.stack([a[:, 1] - a[:, 0], a[:, 2] - a[:, 1], a[:, 0] - a[:, 2]], axis=1)
     longest2 = (edges ** 2).sum(axis=-1).max(axis=1)
     quality_t = np.abs(det) / longest2
-    # rounding of a barycentric coordinate computed from edge vectors: ~ eps / quality
-    u_t = 1e-9 + 64.0 * EPS / np.maximum(quality_t, 1e-300)
+    # float resolution of a barycentric coordinate: the 2x2 solve on edge vectors (~ eps / quality) plus the
+    # resolution eps * max|coordinate| of the positions themselves measured against the smallest height of the simplex
+    cmax = max(float(np.abs(verts).max()), float(np.abs(src).max()) if n else 0.0)
+    height_t = np.abs(det) / np.sqrt(longest2)
+    u_t = 256.0 * EPS * (1.0 + 1.0 / np.maximum(quality_t, 1e-300) + cmax / np.maximum(height_t, 1e-300))
     nbrs = np.asarray(tri.neighbors)
     margin = np.full(n, np.inf)
     hull_tie = np.zeros(n, dtype=bool)
@@ -122,7 +127,7 @@ def delaunay_reference(src, verts):
     # conditioning of barycentric weights evaluated from absolute coordinates (shoelace areas): an
     # implementation working in double on coordinates of magnitude c has weight error ~ eps * c^2 / (2 area);
     # the candidates are all simplices containing the point to rounding (the implementation may use any)
-    cmax2 = max(float(np.abs(verts).max()), float(np.abs(src).max()) if n else 0.0) ** 2
+    cmax2 = cmax ** 2
     kappa_t = np.maximum(cmax2, longest2) / np.maximum(np.abs(det), 1e-300)
     cand = minb >= -u_t[:, None]
     has_cand = cand.any(axis=0)
